@@ -495,6 +495,10 @@ func c20(c *Ctx) {
 						c.R.Violate(caseID, "mock-burst-failed", firstLines(berr.Error(), 1), map[string]any{"proto": protoText, "stderr": firstLines(ch.Stderr(), 30)})
 						break
 					}
+					if bev.Str("ev") != "burst_done" || len(oas.L(bev["results"])) != len(calls) {
+						c.R.Harness(fmt.Sprintf("mock burst did not run: %v %v", bev["ev"], bev["err"]))
+						break
+					}
 					bad := 0
 					for _, r := range oas.L(bev["results"]) {
 						rm := oas.M(r)
